@@ -1,9 +1,17 @@
 package ccmsynth
 
 import (
+	"crypto/ecdsa"
+	"encoding/json"
 	"fmt"
 	"math/big"
 	"math/rand"
+
+	ecom "github.com/ethereum/go-ethereum/common"
+	etypes "github.com/ethereum/go-ethereum/core/types"
+	ecrypto "github.com/ethereum/go-ethereum/crypto"
+	"github.com/ethereum/go-ethereum/rlp"
+	hsq "github.com/polynetwork/poly/native/service/header_sync/quorum"
 
 	"github.com/polynetwork/poly/common/config"
 	scom "github.com/polynetwork/poly/native/service/cross_chain_manager/common"
@@ -26,6 +34,8 @@ type EVMSource struct {
 	Heights []uint64 // heights of the synced headers (all carry State.Root())
 	w       *World
 	sealed  bool
+	qKeys   []*ecdsa.PrivateKey // kind "quorum": the Istanbul validators (header travels with every proof)
+	qOut    *ecdsa.PrivateKey   // kind "quorum": a key that is not a validator
 }
 
 // EVMMessage is a message committed at one storage slot of the source contract.
@@ -106,10 +116,90 @@ func (s *EVMSource) Seal(rng *rand.Rand, n int) error {
 			parent = c.M.Add(parent, h)
 			s.Heights = append(s.Heights, h.Number)
 		}
+	case "quorum":
+		// 1..3 validators (F = 0, so the proposer seal alone is a quorum); the validator set is the
+		// trust root installed by syncGenesisHeader; no header is synced: each proof carries its own
+		// sealed Istanbul header, so the n "synced heights" are just n distinct header numbers.
+		s.Spec.Router = utils.QUORUM_ROUTER
+		if err := w.RegisterAndApprove(s.Spec); err != nil {
+			return err
+		}
+		var addrs []ecom.Address
+		for i, v := 0, 1+rng.Intn(3); i < v; i++ {
+			k, err := ecdsa.GenerateKey(ecrypto.S256(), rng)
+			if err != nil {
+				return err
+			}
+			s.qKeys = append(s.qKeys, k)
+			addrs = append(addrs, ecrypto.PubkeyToAddress(k.PublicKey))
+		}
+		out, err := ecdsa.GenerateKey(ecrypto.S256(), rng)
+		if err != nil {
+			return err
+		}
+		s.qOut = out
+		gen, err := s.quorumHeader(0, ecom.Hash{}, 0)
+		if err != nil {
+			return err
+		}
+		if rec := ee.SyncGenesis(s.Spec.ID, gen); !rec.Ok {
+			return fmt.Errorf("quorum genesis: %s", rec.Err)
+		}
+		base := uint64(100 + rng.Intn(1000))
+		for i := 0; i < n; i++ {
+			base += uint64(1 + rng.Intn(5))
+			s.Heights = append(s.Heights, base)
+		}
 	default:
 		return fmt.Errorf("unknown EVM source kind %q", s.Kind)
 	}
 	return nil
+}
+
+// quorumHeader builds the JSON of an Istanbul header at the given number committing to root,
+// sealed by validator number signer (no committed seals: with at most 3 validators F is 0).
+func (s *EVMSource) quorumHeader(number uint64, root ecom.Hash, signer int) ([]byte, error) {
+	var addrs []ecom.Address
+	for _, k := range s.qKeys {
+		addrs = append(addrs, ecrypto.PubkeyToAddress(k.PublicKey))
+	}
+	ist := &hsq.IstanbulExtra{Validators: addrs, Seal: []byte{}, CommittedSeal: [][]byte{}}
+	payload, err := rlp.EncodeToBytes(ist)
+	if err != nil {
+		return nil, err
+	}
+	hdr := &etypes.Header{Root: root, Difficulty: big.NewInt(1), Number: new(big.Int).SetUint64(number), MixDigest: hsq.IstanbulDigest,
+		Extra: append(make([]byte, hsq.IstanbulExtraVanity), payload...)}
+	enc, err := rlp.EncodeToBytes(hsq.IstanbulFilteredHeader(hdr, false))
+	if err != nil {
+		return nil, err
+	}
+	key := s.qOut
+	if signer >= 0 {
+		key = s.qKeys[signer]
+	}
+	seal, err := ecrypto.Sign(ecrypto.Keccak256(ecrypto.Keccak256(enc)), key)
+	if err != nil {
+		return nil, err
+	}
+	ist.Seal = seal
+	if payload, err = rlp.EncodeToBytes(ist); err != nil {
+		return nil, err
+	}
+	hdr.Extra = append(make([]byte, hsq.IstanbulExtraVanity), payload...)
+	return json.Marshal(hdr)
+}
+
+// hdrFor is the HeaderOrCrossChainMsg payload of an import at the given height (quorum only).
+func (s *EVMSource) hdrFor(height uint32) []byte {
+	if s.Kind != "quorum" {
+		return nil
+	}
+	b, err := s.quorumHeader(uint64(height), ecom.Hash(s.State.Root()), int(height)%len(s.qKeys))
+	if err != nil {
+		panic("quorum header: " + err.Error())
+	}
+	return b
 }
 
 // netIDOf: the process-wide network id (set by NewWorld / the caller) is the World's network id.
@@ -123,13 +213,24 @@ func (s *EVMSource) Import(m EVMMessage, idx int, extra []byte) *nat.CallRecord 
 	if extra == nil {
 		extra = m.P.Serialize()
 	}
-	return ee.Import(s.Spec.ID, uint32(s.Heights[idx]), pr.JSON(), extra)
+	return ee.ImportWith(s.Spec.ID, uint32(s.Heights[idx]), pr.JSON(), extra, s.hdrFor(uint32(s.Heights[idx])))
 }
 
 // ImportRaw submits arbitrary proof bytes / height.
 func (s *EVMSource) ImportRaw(height uint32, proof, extra []byte) *nat.CallRecord {
 	ee := &es.Env{Env: s.w.E, Vals: s.w.Vals}
-	return ee.Import(s.Spec.ID, height, proof, extra)
+	return ee.ImportWith(s.Spec.ID, height, proof, extra, s.hdrFor(height))
+}
+
+// ImportOutsider (quorum only) submits the honest proof of m with a header at the idx-th height
+// that is sealed by a key outside the validator set.
+func (s *EVMSource) ImportOutsider(m EVMMessage, idx int) *nat.CallRecord {
+	ee := &es.Env{Env: s.w.E, Vals: s.w.Vals}
+	hdr, err := s.quorumHeader(s.Heights[idx], ecom.Hash(s.State.Root()), -1)
+	if err != nil {
+		panic("quorum header: " + err.Error())
+	}
+	return ee.ImportWith(s.Spec.ID, uint32(s.Heights[idx]), s.State.Prove(s.CCMC, m.Slot).JSON(), m.P.Serialize(), hdr)
 }
 
 // ProofJSON returns the honest proof document of m.
